@@ -23,6 +23,9 @@ use crate::{
 mod pem;
 use self::pem::{read_cert, read_private_key};
 
+#[cfg(bgpfu_verif)]
+pub(crate) mod verif;
+
 pub(crate) trait Target: Debug + Clone + Sized + Send {
     type Transport: Transport;
 
